@@ -401,11 +401,15 @@ static int vf_gate_held;     /* this process holds a slot of the parallelism sem
 static void vf_exit_branch(void) { if (vf_gate_held) { vf_gate_held = 0; sem_post(&vf_sh->sem); } _exit(0); }
 static vf_seq_cfg_t vf_seq = { 5, 2, 0 };
 
+#ifndef VF_STEP_ALARM_S
+#define VF_STEP_ALARM_S 120     /* one step = one operation plus the check of the state it leads to: an allocator that loops forever is a violation, not a stuck check */
+#endif
 static void vf_child_died(int status, vf_op_t op) {
   /* a child ending by signal or unexpected exit code: secondary oracle "crash" */
   char one[64]; vf_op_str(op, one, sizeof(one));
   vf_path[vf_depth] = op; vf_depth++;
-  if (WIFSIGNALED(status)) vf_violation("crash", "process died with signal %d while applying %s", WTERMSIG(status), one);
+  if (WIFSIGNALED(status) && WTERMSIG(status) == SIGALRM) vf_violation("hang", "applying %s (and checking the resulting state) did not finish within %d s", one, VF_STEP_ALARM_S);
+  else if (WIFSIGNALED(status)) vf_violation("crash", "process died with signal %d while applying %s", WTERMSIG(status), one);
   else vf_violation("abort", "process exited with status %d while applying %s", WEXITSTATUS(status), one);
   vf_depth--;
 }
@@ -416,6 +420,7 @@ static void vf_seq_node(void) {
   if ((n & 1023) == 0 && vf_now() > vf_sh->t_deadline) { vf_sh->deadline_hit = 1; vf_sh->stop = 1; }
   if (vf_sh->stop) return;
   if (vf_check_node() != 0) { vf_sh->stop = 1; return; }
+  alarm(0);                                  /* (armed before the operation was applied: one step = operation + state check) */
   int remaining = vf_seq.maxdepth - vf_depth;
   int covered = 0;
   vf_state_insert(vf_fingerprint(), vf_seq.prune ? remaining : -1, &covered);
@@ -435,7 +440,9 @@ static void vf_seq_node(void) {
       vf_path[vf_depth] = ops[i]; vf_depth++;
       VF_INC(transitions);
       if (vf_sh->nsamples < VF_MAX_SAMPLES && vf_depth == vf_seq.maxdepth) { char ps[1024]; vf_path_str(ps, sizeof(ps)); vf_sample("[%s] %s", vf_cfg, ps); }
+      alarm(VF_STEP_ALARM_S);
       if (vf_apply(ops[i]) != 0) vf_sh->stop = 1; else vf_seq_node();
+      alarm(0);
       if (gate) { sem_post(&vf_sh->sem); vf_gate_held = 0; }
       _exit(0);
     }
